@@ -93,12 +93,6 @@ ParserRefines(a) == /\ MechParse(a) # "crash"
 (* What an accepted run may write: well-formedness of ONE generated file    *)
 (* content record fcg (see MPText) with respect to the arguments.           *)
 
-SpreadAssign(np, nl) ==      \* project -> lecturer, shares as even as possible, larger first
-    LET cnt == Spread(nl, np)
-        RECURSIVE Cum(_)
-        Cum(l) == IF l = 0 THEN 0 ELSE cnt[l] + Cum(l - 1)
-    IN  [p \in 1 .. np |-> CHOOSE l \in 1 .. nl : Cum(l - 1) < p /\ p <= Cum(l)]
-
 NoTies(rk)  == \A i \in 1 .. Len(rk) - 1 : rk[i + 1] # rk[i]
 AllTied(rk) == \A i \in DOMAIN rk : rk[i] = 1
 IsPermOf(q, T) == Rng(q) = T /\ Len(q) = Cardinality(T)
